@@ -6,7 +6,7 @@
   3. view == final export: the guard constructor and `into_compressed` emit the same words       (R4)
   4. exclusivity witnesses (thorough tier, compile-fail)                                          (R9)
 """
-from vlib import sym, rules, effects
+from vlib import sym, rules, effects, anchors
 from vlib.effects import Unresolved
 
 ANS = 'stream::stack::AnsCoder'
@@ -110,8 +110,7 @@ def frame_violations(paths, base, allowed_fields):
 
 
 def check_coder_guard(ctx, F):
-    new = get_body(F, ['stream::stack::CoderGuard', '::new'], 'new')
-    drop = get_body(F, ['stream::stack::CoderGuard', 'core::ops::Drop'], 'drop')
+    g, new, drop = anchors.guard_of(F, ANS, 'get_compressed')
     key = 'R5/guard-pairing/stream::stack::CoderGuard'
     role = 'guard pops exactly the words it appended'
     if not new or not drop:
@@ -165,7 +164,7 @@ def check_coder_guard(ctx, F):
     else:
         ctx.ok('R1', 'guard creation/drop only touch the word buffer', new.defpath, 'writes ⊆ {bulk} on all %d + %d paths' % (len(pn), len(pd)), key=k2)
     # view == export: same iterator source, items written unchanged
-    into = get_body(F, ['stream::stack::AnsCoder', 'into_compressed'], 'into_compressed')
+    into = anchors.method(F, ANS, 'into_compressed')
     k3 = 'R4/view-equals-export/AnsCoder::get_compressed'
     role3 = 'temporary view shows what into_compressed would append'
     if into is None:
@@ -219,13 +218,10 @@ def _affine_to_term(a):
 
 
 def check_encoder_guard(ctx, F):
-    seal = get_body(F, ['stream::queue::RangeEncoder', '::seal'], 'seal')
-    nsw = get_body(F, ['stream::queue::RangeEncoder', '::num_seal_words'], 'num_seal_words')
-    unseal = get_body(F, ['stream::queue::RangeEncoder', '::unseal'], 'unseal')
-    new = get_body(F, ['stream::queue::EncoderGuard', '::new'], 'new')
-    drop = get_body(F, ['stream::queue::EncoderGuard', 'core::ops::Drop'], 'drop')
-    isempty = get_body(F, ['stream::queue::RangeEncoder', '::is_empty'], 'is_empty')
-    into = get_body(F, ['stream::queue::RangeEncoder', '::into_compressed'], 'into_compressed')
+    parts = anchors.range_encoder_parts(F)
+    seal, nsw, unseal = parts['seal'], parts['num_seal_words'], parts['unseal']
+    new, drop = parts['guard_new'], parts['guard_drop']
+    isempty, into = parts['is_empty'], parts['into_compressed']
     base = 'stream::queue::EncoderGuard'
     missing = [n for n, b in (('seal', seal), ('num_seal_words', nsw), ('unseal', unseal), ('EncoderGuard::new', new), ('EncoderGuard::drop', drop), ('is_empty', isempty), ('into_compressed', into)) if b is None]
     if missing:
@@ -237,7 +233,7 @@ def check_encoder_guard(ctx, F):
     for b in (seal, nsw, unseal, new, drop, isempty, into):
         ctx.touch(b, calls=sum(1 for _ in b.calls()))
     # (a) count(seal) == num_seal_words() under every aligned valuation
-    key = 'R5/seal-count/stream::queue::RangeEncoder::seal'
+    key = 'R5/seal-count/stream::queue::RangeEncoder'
     role = 'seal writes exactly num_seal_words() words'
     try:
         ss = effects.summarise(evs, ps, lambda e: 1 if is_call_on(e, 'WriteWords::write', bulk) else None)
@@ -267,14 +263,14 @@ def check_encoder_guard(ctx, F):
         ctx.unresolved('R5', role, seal.defpath, str(u), key=key)
     # (b) seal's frame ⊆ {bulk}
     fv = frame_violations(ps, (1, 'deref'), {'bulk'})
-    k = 'R1/seal-frame/stream::queue::RangeEncoder::seal'
+    k = 'R1/seal-frame/stream::queue::RangeEncoder'
     if fv:
         ctx.bad('R1', 'seal leaves state and situation untouched', seal.defpath, '; '.join(fv), key=k, loc=rules.loc(seal))
     else:
         ctx.ok('R1', 'seal leaves state and situation untouched', seal.defpath, 'writes ⊆ {bulk} on all %d paths' % len(ps), key=k)
     # (c) unseal pops num_seal_words() words and nothing else
     evu, pu = rules.evaluate(unseal)
-    k = 'R5/unseal-count/stream::queue::RangeEncoder::unseal'
+    k = 'R5/unseal-count/stream::queue::RangeEncoder'
     try:
         su = effects.summarise(evu, pu, lambda e: 1 if is_call_on(e, '::pop', bulk) else None)
         rets = [s for s in su if s.end == 'return']
@@ -282,7 +278,7 @@ def check_encoder_guard(ctx, F):
         ok = bool(rets)
         for s in rets:
             atoms = list(s.count[0].values())
-            if s.count[1] != 0 or len(atoms) != 1 or atoms[0][0] != 1 or not (atoms[0][1][0] == 'call' and atoms[0][1][1].endswith('::num_seal_words')):
+            if s.count[1] != 0 or len(atoms) != 1 or atoms[0][0] != 1 or not (atoms[0][1][0] == 'call' and atoms[0][1][1] == nsw.defpath):
                 ok = False
                 want = sym.affine_str(s.count)
         fvu = frame_violations(pu, (1, 'deref'), {'bulk'})
@@ -300,9 +296,9 @@ def check_encoder_guard(ctx, F):
     for r in pg:
         if r.end != 'return':
             continue
-        seals = [e for e in r.events if e['kind'] == 'call' and e['callee'].endswith('::seal')]
-        others = [e for e in r.events if e['kind'] == 'call' and e.get('uid') is not None and not e['callee'].endswith('::seal')]
-        emp = [(t, v) for t, v, _ in r.preds if t[0] == 'call' and t[1].endswith('::is_empty')]
+        seals = [e for e in r.events if e['kind'] == 'call' and e['callee'] == seal.defpath]
+        others = [e for e in r.events if e['kind'] == 'call' and e.get('uid') is not None and e['callee'] != seal.defpath]
+        emp = [(t, v) for t, v, _ in r.preds if t[0] == 'call' and t[1] == isempty.defpath]
         if others:
             bad = 'guard creation calls %s with mutable access to the encoder' % others[0]['callee']
         if len(emp) != 1:
@@ -317,7 +313,7 @@ def check_encoder_guard(ctx, F):
                 bad = 'empty encoder is sealed although drop will pop num_seal_words() == 0 words'
     evd, pdr = rules.evaluate(drop)
     dcalls = [e for r in pdr for e in r.events if e['kind'] == 'call' and e.get('uid') is not None]
-    if len(pdr) != 1 or len(dcalls) != 1 or not dcalls[0]['callee'].endswith('::unseal'):
+    if len(pdr) != 1 or len(dcalls) != 1 or dcalls[0]['callee'] != unseal.defpath:
         bad = 'drop is not exactly one call to unseal'
     # is_empty() true  =>  range == max  => num_seal_words path returning 0
     eve, pe = rules.evaluate(isempty)
@@ -340,15 +336,21 @@ def check_encoder_guard(ctx, F):
     for r in pi:
         if r.end == 'return' and rules.ret_shape(r.ret)[0] == 'Ok':
             cs = [e for e in r.events if e['kind'] == 'call' and e.get('uid') is not None]
-            okv = len(cs) == 1 and cs[0]['callee'].endswith('::seal')
+            okv = len(cs) == 1 and cs[0]['callee'] == seal.defpath
     (ctx.ok if okv else ctx.bad)('R4', 'temporary view shows what into_compressed would return', into.defpath,
                                  'into_compressed = seal() then bulk; the guard calls the same seal()' if okv else 'into_compressed is not `seal()` followed by returning bulk', key=k)
 
 
 def check_bit_guards(ctx, F):
-    for gname, coder_into in (('symbol::StackCoderGuard', 'StackCoder'), ('symbol::QueueEncoderGuard', 'QueueEncoder')):
-        new = get_body(F, [gname, '::new'], 'new')
-        drop = get_body(F, [gname, 'core::ops::Drop'], 'drop')
+    guards = []
+    for m in [b for b in F.bodies if b.promoted is None and b.name == 'get_compressed' and b.self_adt == SYMC]:
+        for cb, blk, t in anchors.local_callees(F, m):
+            dr = [b for b in F.bodies if b.promoted is None and b.name == 'drop' and b.self_adt == cb.self_adt and b.impl_trait == 'core::ops::Drop']
+            if cb.self_adt and dr:
+                guards.append((cb.self_adt, cb, dr[0]))
+    if len(guards) < 2:
+        ctx.bad('R5', 'floor: bit-coder guards', SYMC, 'only %d view guards found behind SymbolCoder::get_compressed (2 expected)' % len(guards), key='R5/floor/bit-guards')
+    for gname, new, drop in guards:
         key = 'R5/guard-pairing/' + gname
         role = 'guard pops exactly the words it pushed (and undoes the seal bit)'
         if not new or not drop:
